@@ -88,10 +88,13 @@ Lemma map_id_in {A} (f : A -> A) l : (forall x, In x l -> f x = x) -> map f l = 
 Proof. induction l as [|a l IH]; cbn; intro H; [reflexivity|]. rewrite (H a (or_introl eq_refl)), IH; [reflexivity|]. intros x Hx. apply H. right. exact Hx. Qed.
 
 Lemma imgok_kids_same s0 rl p p' s s' m : kids s' = kids s -> ImgOK s0 rl p p' s m -> ImgOK s0 rl p p' s' m.
-Proof. intros Hk [A B]. split; [intros i Hi; destruct (A i Hi) as [i' H]; exists i'; rewrite Hk; exact H|intros i' Hi'; rewrite Hk in Hi'; apply B; exact Hi']. Qed.
+Proof. intros Hk [A [B C]]. split; [intros i Hi; destruct (A i Hi) as [i' H]; exists i'; rewrite Hk; exact H|split; [intros i' Hi'; rewrite Hk in Hi'; apply B; exact Hi'|rewrite Hk; exact C]]. Qed.
 Lemma defimg_kids_same s0 d d' s s' m : kids s' = kids s -> DefImg s0 d d' s m -> DefImg s0 d d' s' m.
 Proof.
-  intros Hk [A B C D F]. constructor.
+  intros Hk [A B C D F O1 O2 O3]. constructor.
+  6:{ rewrite Hk. exact O1. }
+  6:{ rewrite Hk. exact O2. }
+  6:{ rewrite Hk. exact O3. }
   - intros p Hp. destruct (A p Hp) as [p' [H1 [H2 H3]]]. exists p'. rewrite Hk. split; [exact H1|split; [exact H2|apply (imgok_kids_same _ _ _ _ s s' m Hk H3)]].
   - intros p Hp. destruct (B p Hp) as [p' [H1 [H2 H3]]]. exists p'. rewrite Hk. split; [exact H1|split; [exact H2|apply (imgok_kids_same _ _ _ _ s s' m Hk H3)]].
   - intros p Hp. destruct (C p Hp) as [p' H]. exists p'. rewrite Hk. exact H.
@@ -187,7 +190,7 @@ Section RemapStep.
              exists e', p'. split; [reflexivity|]. split; [apply (proj1 (ri_1a _ _ _ R RPorts ltac:(discriminate)))|apply (proj1 (ri_1a _ _ _ R RPins ltac:(discriminate)))]; assumption.
           -- intros [d [p' [H0 [H1 H2]]]]. injection H0 as <-.
              apply (proj1 (ri_1a _ _ _ R RPorts ltac:(discriminate))) in H1. apply (proj1 (ri_1a _ _ _ R RPins ltac:(discriminate))) in H2.
-             destruct (DPr p' H1) as [p [Hpp Hp]]. destruct (DP p Hp) as [p'' [Hpp'' [_ [_ Hrev]]]].
+             destruct (DPr p' H1) as [p [Hpp Hp]]. destruct (DP p Hp) as [p'' [Hpp'' [_ [_ [Hrev _]]]]].
              assert (p'' = p') by (apply (memo_fun m p p'' p' (st_fun _ _ _ ST0)); assumption). subst p''.
              destruct (Hrev i H2) as [k [Hki Hkp]]. exists k. split; [|apply (in_mget m k i (st_fun _ _ _ ST0) Hki)].
              apply (k_keys _ (ri_k _ _ _ R)). exists e, p. split; [exact Hr|]. destruct U0 as [I0 _].
